@@ -19,6 +19,15 @@ fn rnd40(r: &mut StdRng) -> [u8; 40] {
     a
 }
 fn key_class(r: &mut StdRng, k: usize) -> [u8; 40] {
+    if k % 11 == 7 {
+        return [r.gen::<u8>() | 0x80; 40];      // all bytes equal, top bit set
+    }
+    if k % 11 == 9 {
+        let mut a = rnd40(r);
+        a[19] = 0;
+        a[20] = 0;
+        return a;
+    }
     match k % 5 {
         0 => rnd40(r),
         1 => [0u8; 40],
@@ -1067,6 +1076,16 @@ pub fn run_hdradv(args: &Args) -> (u64, u64) {
                     if k % 2 == 0 || matches!(r, Some(Some(_))) {
                         c.wrath_complete(&mut cl, rng.gen(), via);
                     }
+                }
+                // a long header whose fifth byte arrives only after other bytes went through the raw decrypt
+                if let Some(h) = c.enc_server_hdr(&mut sv, 0x18000, 0x1EE, via) {
+                    let mut a4 = [0u8; 4];
+                    a4.copy_from_slice(&h[..4]);
+                    c.wrath_attempt(&mut cl, a4, via);
+                    let mut mid = vec![0u8; 5];
+                    rng.fill_bytes(&mut mid);
+                    c.call(&mut cl, "dec", &mid, via);
+                    c.wrath_complete(&mut cl, h[4], via);
                 }
                 // legitimate long header, then extra completions with stale state
                 if let Some(h) = c.enc_server_hdr(&mut sv, 0x7FFFFF, 0xFFFF, via) {
